@@ -64,6 +64,11 @@ def gen_cases(rng, tier, scale):
                                     ('{{*sethelper "lh" "e:t"}}{{#if (lh 1)}}{{v}}{{/if}}|{{lookup o (lh 1)}}|{{v}}', '\x01<\x02|\x01\x02|\x01<\x02'),
                                     ('{{*sethelper "lh" "e:t"}}{{#each l}}{{id (lh 1)}}{{/each}}', ML + ML)]):
         cases.append(rcase(f'lh{k}', tpl, {'v': '<', 'o': {'k': 1}, 'l': [1, 2]}, pre=['probes', 'esc 2'], entry=0, kind='exact', exp=exp, tags=['escape-honouring-local-helper']))
+    # values inside a block body that a user helper captures with Renderable::renders are escaped like anywhere else
+    for k, (tpl, exp) in enumerate([('{{*sethelper "cap" "c:"}}{{#cap}}{{v}}|{{{v}}}|{{lookup o "k"}}{{/cap}}|{{v}}', '<\x01<\x02|<|\x011\x02>|\x01<\x02'),
+                                    ('{{*sethelper "cap" "c:"}}{{#each l}}{{#cap}}{{../v}}{{/cap}}{{/each}}', '<\x01<\x02><\x01<\x02>'),
+                                    ('{{*sethelper "cap" "c:"}}{{{{raw}}}}{{v}}{{{{/raw}}}}{{#cap}}{{#if v}}{{v}}{{/if}}{{/cap}}', '{{v}}<\x01<\x02>')]):
+        cases.append(rcase(f'cap{k}', tpl, {'v': '<', 'o': {'k': 1}, 'l': [1, 2]}, pre=['probes', 'esc 2'], entry=0, kind='exact', exp=exp, tags=['captured-block-body']))
     # default escape and no_escape at a few positions
     for k in range(60 * scale):
         v = rs(rng)
